@@ -143,7 +143,10 @@ def run(ctx):
                 elif kind == "skip":
                     skips[what.split()[0]] += 1
                 elif kind == "note":
-                    notes[" ".join(what.split()[:2])] += 1
+                    if what.startswith("ms_space_exact"):
+                        stats["ms_space_exact"] += 1      # mu_space = the set of ALL ranking functions (doc claim)
+                    else:
+                        notes[" ".join(what.split()[:2])] += 1
                 elif kind == "MODELDIFF":
                     notes["model_differs_from_code " + what.split()[0]] += 1
                 elif kind == "MISMATCH":
@@ -156,6 +159,8 @@ def run(ctx):
                                    "caseinfo": {k: v for k, v in info.items() if k != "_ln"},
                                    "replay_cmd": "bin/check C18 --replay <this file>"},
                                   found_input=True, record={"site": site, "tags": tags})
+    if not quick and not ctx.replay:
+        broken += ctx.leanchecker(PROPS)
     for b in broken:
         ctx.violation("proof obligation broken: " + b, {"obligation": b}, found_input=False)
 
@@ -171,6 +176,8 @@ def run(ctx):
         "events_ok_by_entry_point": dict(obligations_checked),
         "notes": dict(notes), "crashes_or_timeouts": dict(crashes),
         "model_vs_code_disagreements": stats["MODELDIFF"],
+        "ms_space_equals_set_of_all_ranking_functions": stats["ms_space_exact"],
+        "existence_decided_by_verified_decider": sum(1 for i in infos if i.get("dec") in ("0", "1")),
         "histograms": {k: dict(v) for k, v in hist.items()},
         "driver_summary": dict(tot),
     })
